@@ -101,7 +101,12 @@ def case_ref(case):
     # 2-D coordinate arrays that are NOT an xy-meshgrid: an ij-meshgrid and a batch of scattered points
     gx, gy = np.meshgrid(np.arange(-1500.0, 1501.0, 1000.0), np.arange(-900.0, 901.0, 600.0), indexing="ij")
     sc = np.array([[120.0, -340.0, 2210.0], [-4100.0, 15.0, 0.0]])
-    for name, ax, ay in (("ij-meshgrid", gx, gy), ("scattered 2-D batch", sc, sc[::-1, ::-1].copy()), ("xy-meshgrid", gx.T.copy(), gy.T.copy())):
+    g3x, g3y = np.meshgrid(np.arange(-1500.0, 1501.0, 1000.0), np.arange(-900.0, 901.0, 600.0))
+    g3x, g3y = np.stack([g3x, g3x + 37.0]), np.stack([g3y, g3y - 11.0])  # (2, ny, nx) stacks
+    # ... and the same kinds of arrays in other memory layouts: transposed VIEWS of (nx, ny) rasters, Fortran order, an axis moved
+    for name, ax, ay in (("ij-meshgrid", gx, gy), ("scattered 2-D batch", sc, sc[::-1, ::-1].copy()), ("xy-meshgrid", gx.T.copy(), gy.T.copy()),
+                         ("transposed views", gx.T, gy.T), ("Fortran-ordered arrays", np.asfortranarray(gx), np.asfortranarray(gy)), ("Fortran x, C y", np.asfortranarray(gx), gy),
+                         ("3-D stack with the level axis moved last", np.moveaxis(g3x, 0, -1), np.moveaxis(g3y, 0, -1)), ("reversed strided views", gx[::-1, ::2], gy[::-1, ::2])):
         la2, lo2 = xy_to_latlon(ax, ay, rlat, rlon)
         n += 1
         la2, lo2 = np.asarray(la2), np.asarray(lo2)
